@@ -6,7 +6,11 @@ import "runtime"
 
 // Hand-off channel operations must not create happens-before edges between
 // tasks: they exist only in the simulation, not in the program under test.
+//
+//go:norace
 func raceOff() { runtime.RaceDisable() }
-func raceOn()  { runtime.RaceEnable() }
+
+//go:norace
+func raceOn() { runtime.RaceEnable() }
 
 const RaceBuild = true
